@@ -244,6 +244,10 @@ def gen(repo):
                    re.search(r"\.upgradable_read\(\)", udp_swarm) is not None
                    and re.search(r"RwLockUpgradableReadGuard::upgrade\(\s*torrent_map_shard\s*\)\s*\.entry\(\s*request\.info_hash\s*\)\s*\.or_default\(\)", udp_swarm) is not None,
                    "crates/udp/src/swarm.rs TorrentMapShards::announce (upgradable read + upgrade + entry().or_default())"))
+    # swarm.rs scrape export: the temporary file is opened with File::create (create OR TRUNCATE)
+    guards.append(("udp_export_tmp_created_truncating",
+                   re.search(r"File::create\(\s*config\s*\.scrape_exports\s*\.tmp_path\(\)\s*\)", udp_swarm) is not None,
+                   "crates/udp/src/swarm.rs clean_and_update_statistics (File::create(tmp_path))"))
     for name, val, src in guards:
         out.append("(* %s *)" % src)
         out.append("Definition %s : bool := %s." % (name, "true" if val else "false"))
